@@ -273,3 +273,43 @@ package db
 //@   assert after @set:values[i]#6: [blob-kept] typeis(values[i].Value, "*rq/command/proto.Parameter_Y") && as(values[i].Value, "*rq/command/proto.Parameter_Y").Y == val
 //@   assert after @set:values[i]#7: [blob-kept] typeis(values[i].Value, "*rq/command/proto.Parameter_Y") && as(values[i].Value, "*rq/command/proto.Parameter_Y").Y == val
 //@   ensures [count] result1 == nil ==> len(result0) == len(types)
+//
+// ---- C25 / C27: change-data-capture groups carry the log index and exactly the hook's events ------------
+// Reset starts an empty group labelled with the entry's index; PreupdateHook appends the event it
+// is given, in hook order, leaving the label alone; CommitHook hands the collected group (same
+// events, same order, same index) to the out channel or drops it when the channel is full, and
+// starts a new empty group for the SAME log entry (a request can commit more than once), so every
+// group of one entry carries that entry's index.
+//@ func (ColumnsNameProvider) ColumnNames
+//@   noheap
+//@ func (*CDCStreamer) Reset
+//@   ensures [labelled] s.pending != nil && s.pending.Index == k && len(s.pending.Events) == 0
+//@ func (*CDCStreamer) PreupdateHook
+//@   requires [recv] s != nil && s.pending != nil
+//@   ensures [appended-last] s.pending == old(s.pending) && len(s.pending.Events) == len(old(s.pending.Events)) + 1 && s.pending.Events[len(s.pending.Events) - 1] == ev
+//@   ensures [earlier-kept] forall j int :: (0 <= j && j < len(old(s.pending.Events))) ==> s.pending.Events[j] == old(s.pending.Events)[j]
+//@   ensures [label-kept] s.pending.Index == old(s.pending.Index)
+//@   ensures [accepts] result == nil
+//@ func (*CDCStreamer) CommitHook
+//@   requires [recv] s != nil && s.pending != nil
+//@   ghost var idx0 int = s.pending.Index
+//@   ghost var grp0 int = s.pending
+//@   ghost var n0 int = len(s.pending.Events)
+//@   assert @send:s.out: [sends-the-collected-group] result == grp0 && result.Index == idx0 && len(result.Events) == n0 && n0 > 0
+//@   ensures [index-carried] s.pending != nil && s.pending.Index == idx0
+//@   ensures [cleared-after-commit] n0 > 0 ==> (s.pending != grp0 && len(s.pending.Events) == 0)
+//@   ensures [commit-proceeds] result
+//@   loop 1 invariant [group-kept] s.pending == grp0 && s.pending.Index == idx0 && len(s.pending.Events) == n0
+//
+// normalizeCDCValues: per column, the value reported by SQLite's preupdate hook becomes the CDC
+// value of the same kind and value, position and count preserved.
+//@ func normalizeCDCValues
+//@   safe
+//@   assert after @set:cdcRow.Values[i]#2: [int64-kept] typeis(cdcRow.Values[i].Value, "*rq/command/proto.CDCValue_I") && as(cdcRow.Values[i].Value, "*rq/command/proto.CDCValue_I").I == val
+//@   assert after @set:cdcRow.Values[i]#3: [float-kept] typeis(cdcRow.Values[i].Value, "*rq/command/proto.CDCValue_D") && as(cdcRow.Values[i].Value, "*rq/command/proto.CDCValue_D").D == val
+//@   assert after @set:cdcRow.Values[i]#4: [bool-kept] typeis(cdcRow.Values[i].Value, "*rq/command/proto.CDCValue_B") && as(cdcRow.Values[i].Value, "*rq/command/proto.CDCValue_B").B == val
+//@   assert after @set:cdcRow.Values[i]#5: [text-kept] typeis(cdcRow.Values[i].Value, "*rq/command/proto.CDCValue_S") && as(cdcRow.Values[i].Value, "*rq/command/proto.CDCValue_S").S == val
+//@   assert after @set:cdcRow.Values[i]#6: [blob-kept] typeis(cdcRow.Values[i].Value, "*rq/command/proto.CDCValue_Y") && as(cdcRow.Values[i].Value, "*rq/command/proto.CDCValue_Y").Y == val
+//@   assert after @set:cdcRow.Values[i]#8: [null-kept] cdcRow.Values[i] != nil && cdcRow.Values[i].Value == nil
+//@   loop 1 invariant [row] cdcRow != nil && len(cdcRow.Values) == len(row)
+//@   ensures [count] result1 == nil ==> (result0 != nil && len(result0.Values) == len(row))
